@@ -10,10 +10,10 @@ THEOREMS = ["PQ.C06." + t for t in (
     "pending_at_close_dropped", "pending_at_close_dropped_file", "offsets_truthful", "offsets_contiguous")] + ["PQ.C02.file_valid"]
 
 
-def histories(chk, z, thorough):
+def histories(chk, z, thorough, L=None, mxs=(1, 2, 3, 4, 5)):
     """(max, codec, ops, tag)"""
     g = zoolib.Gen(chk.rng, mode="pool")
-    L = 8 if thorough else 6
+    L = L or (8 if thorough else 6)
     out = []
     ctr = [0]
 
@@ -32,7 +32,7 @@ def histories(chk, z, thorough):
                     ops = [("a", rec()) if x == "a" else ("w",) for x in t] + [("c",)]
                     out.append((mx, codec, ops, "exhaustive"))
     # targeted: k*max, k*max±1 adds, empty writes at every position, pending at close
-    for mx in (1, 2, 3, 4, 5):
+    for mx in mxs:
         for k in (1, 2, 3):
             for d in (-1, 0, 1):
                 n = k * mx + d
@@ -57,9 +57,14 @@ def run(chk):
         build_pqh(chk.log)
         pr = proof_stage(chk, MODULE, THEOREMS, ["PQ.Props.C02"], audit_imports=["PQ.Props.C02"])
     pair = Pair(chk.log)
-    zs = filelevel.load_zoos(pair, ["three"])
+    zs = filelevel.load_zoos(pair, ["three", "solo"])
     z = zs["three"]
     cases = [filelevel.Case(z, mx, codec, ops, tag) for mx, codec, ops, tag in histories(chk, z, thorough)]
+    # a schema with exactly one column: the last page of a row group and the first page of the next share their
+    # column path (seeded change C06-r8: a "same column as the previous page" shortcut in the row-group accounting)
+    if "solo" in zs:
+        cases += [filelevel.Case(zs["solo"], mx, codec, ops, tag + "-solo")
+                  for mx, codec, ops, tag in histories(chk, zs["solo"], thorough, L=(6 if thorough else 5), mxs=(1, 2, 3))]
     filelevel.run_cases(pair, cases)
 
     tie_breaks, prop_fail = [], []
@@ -98,7 +103,7 @@ def run(chk):
     })
     return common.verdict(chk, cov, pr, prop_fail, tie_breaks, "C06",
                           "PQ writer/reader model vs generated ParquetWriter/ParquetReader (struct three)",
-                          ["struct three (required int64, optional string, repeated int32); other shapes are covered by C01/C02/C05",
+                          ["structs three (required int64, optional string, repeated int32) and solo (one required int64 column); other shapes are covered by C01/C02/C05",
                            "page size >= 1"])
 
 
